@@ -2,7 +2,7 @@
 from native import selftest_refinterp as ST
 from native.bounded._common import run_sections
 
-BOUND = "polynomial circuits: <= 3 variables ids 0..12, <= 2 units, degree <= 3, 24 circuits (x4 thorough) x order in {1, 2}, flags rotating"
+BOUND = "polynomial circuits: <= 3 variables ids 0..12, <= 2 units, degree <= 3, 24 circuits (x4 thorough) x order in {1, 2}, flags rotating; plus conjugate(differentiate(c, 2)) - a second operator on a derivative circuit - against the second derivative"
 RULE = "one case = (circuit index, order, fold, optimize)"
 
 
